@@ -54,7 +54,7 @@ def model_check(universe="Small", dev=(), invariants=INVS, listing=True, timeout
 
 
 def summaries(scenarios, dev):
-    """TLC evaluates the module on the scenarios: {(id, round): summary}."""
+    """TLC evaluates the module on the scenarios: {id: [summary of each allowed behaviour]}."""
     if not scenarios:
         return {}, None
     work = tlc.scratch("vt-lu-")
@@ -65,9 +65,11 @@ def summaries(scenarios, dev):
         cfg = _cfg(work, "j.cfg", "JSpec", dev, ["INVARIANT EmitSummary"])
         r = tlc.model_check("MC_LoaderUser", cfg=cfg, env={"VT_CASES": cp}, workers=1, timeout=3000)
         tlc.require_ok(r, f"summary evaluation dev={sorted(dev)}")
-        out = {(x["id"], x["round"]): x for x in r.results("RESULT")}
+        out = {}
+        for x in r.results("RESULT"):
+            out.setdefault(x["id"], []).append(x)
         for s in scenarios:
-            if (s["id"], 1) not in out or (s["id"], 2) not in out:
+            if s["id"] not in out:
                 raise tlc.MachineryError(f"no summary for scenario {s['id']}")
         return out, r
     finally:
@@ -259,11 +261,11 @@ def observe(sc):
     return run, obs
 
 
-def expected_obs(sums, sid):
-    a, b = sums[(sid, 1)], sums[(sid, 2)]
-    return dict(res1=a["res1"], res2=b["res2"], post1=dict(instr=a["instr"], store=a["store"]),
-                post2=dict(instr=b["instr"], store=b["store"]), retained=a["retained"],
-                inits1=a["inits"], inits=b["inits"], same=b["same"])
+def expected_obs(x):
+    a = x["post1"]
+    return dict(res1=x["res1"], res2=x["res2"], post1=dict(instr=a["instr"], store=a["store"]),
+                post2=dict(instr=x["instr"], store=x["store"]), retained=a["retained"],
+                inits1=a["inits"], inits=x["inits"], same=x["same"])
 
 
 def project(obs, pid):
@@ -332,11 +334,11 @@ def judge_all(rep, pid, cases, with_summary, nontrivial):
                     why[i] = (f"event {k + 1} of the recorded load is not a step of LoaderUser!Next: "
                               f"{json.dumps(x['trace']['events'][k])[:260]}")
                 if ok and with_summary:
-                    exp = project(expected_obs(sums, x["sc"]["id"]), pid)
+                    exps = [common.canon(project(expected_obs(e), pid)) for e in sums[x["sc"]["id"]]]
                     o = project(x["obs"], pid)
-                    ok = common.canon(o) == common.canon(exp)
+                    ok = common.canon(o) in exps
                     if not ok and not D:
-                        why[i] = f"observed {common.canon(o)[:240]} but LoaderUser.tla gives {common.canon(exp)[:240]}"
+                        why[i] = f"observed {common.canon(o)[:240]} but LoaderUser.tla gives {exps[0][:240]}"
                 if ok:
                     verdict[i] = D
                 else:
@@ -366,8 +368,9 @@ def replay_case(path, pid):
         print("  ", json.dumps(e))
     print("trace reached", got[0][0], "of", got[0][1])
     sums, _ = summaries([sc], frozenset())
-    exp = project(expected_obs(sums, sc["id"]), pid)
+    exps = [common.canon(project(expected_obs(e), pid)) for e in sums[sc["id"]]]
     o = project(obs, pid)
     print("observed", common.canon(o))
-    print("expected", common.canon(exp))
-    return 0 if got[0][0] == got[0][1] and common.canon(o) == common.canon(exp) else 1
+    for e in exps[:4]:
+        print("expected", e)
+    return 0 if got[0][0] == got[0][1] and common.canon(o) in exps else 1
